@@ -54,3 +54,49 @@ def step_runs(prop, tier, actions):
                         bound=f"{n} symbolic node slots + 1 spare id, all argument tuples (every node pair / node "
                               f"incl. one id not in the graph, force on/off, unbounded integer times and ids)"))
     return runs
+
+
+SEG_ASSUME = [
+    "tracks with a symbolic label array (one integer term per cell, any values satisfying the label/node "
+    "correspondence of Inv); stored regionprops / IoU values of the pre-state are consistent with the array",
+    "regionprops_extended is a contract stub: one region per label present; each attribute is an uninterpreted "
+    "function of the label's own mask bits and the spacing (numerics of skimage are out of reach)",
+    "_compute_ious is a contract stub: (l1, l2, IOU(|l1&l2|, |l1|l2|)) for every overlapping label pair, IOU "
+    "uninterpreted (the kernel itself is covered by the conformance self-test only)",
+    "caller preconditions of the paint driver: one frame per stroke; an existing node's label is painted only in "
+    "that node's own frame; node additions on tracks with segmentation carry non-empty background pixels",
+]
+SEG_STUBS = ["regionprops_extended -> uninterpreted functions of mask bits and spacing",
+             "_compute_ious -> contract stub with uninterpreted IOU(inter, union)", "numpy ndarray -> SArr",
+             "networkx.DiGraph -> SymDiGraph", "TrackAnnotator lookups -> LazyIdMap"]
+
+
+def seg_runs(prop, tier, specs):
+    """specs: list of (action, N, shape, extra cfg)"""
+    from harness import seg_replay, segstep
+
+    runs = []
+    for action, n, shape, extra in specs:
+        cfg = dict(N=n, action=action, shape=shape, props=[prop])
+        cfg.update(extra)
+        tagx = ",".join(f"{k}={v}" for k, v in extra.items())
+        runs.append(Run(name=f"seg:{action}:N={n}:{'x'.join(map(str, shape))}" + (":" + tagx if tagx else ""),
+                        harness=segstep.harness, cfg=cfg, replay=seg_replay.replay,
+                        need_tags=("accepted",),
+                        bound=f"{n} symbolic node slots + 1 spare id, label array {'x'.join(map(str, shape))} with "
+                              f"symbolic cells, all strokes / argument tuples"))
+    return runs
+
+
+def enable_runs(prop, tier, specs):
+    from harness import seg_replay, segstep
+
+    runs = []
+    for key, n, shape, extra in specs:
+        cfg = dict(N=n, key=key, shape=shape)
+        cfg.update(extra)
+        runs.append(Run(name=f"enable:{key}:N={n}:{'x'.join(map(str, shape))}", harness=segstep.enable_harness,
+                        cfg=cfg, replay=seg_replay.replay, need_tags=("enabled",),
+                        bound=f"enable_features(['{key}']) at an arbitrary Inv-state: {n} node slots, array "
+                              f"{'x'.join(map(str, shape))}"))
+    return runs
